@@ -52,6 +52,11 @@ impl<R: Read + Seek> ReadBox<&mut R> for EdtsBox {
 
         let mut edts = EdtsBox::new();
 
+        if size <= HEADER_SIZE {
+            // an edit box without an edit list
+            return Ok(edts);
+        }
+
         let header = BoxHeader::read(reader)?;
         let BoxHeader { name, size: s } = header;
         if s > size {
